@@ -196,6 +196,15 @@ Definition cyl_cell (g : cylgrid) (p : vec) : cell :=
    iphi_sector (cg_nphi g) (cg_dphi g) x y,
    ctrunc (z / cg_dz g)).
 
+(* The cell exactly as the code computes it from the angle atan2 returned (degrees, an oracle value): any sector size and
+   any period = grid_shape[1] * grid_steps[1] (also one that divides 360 only within the emitter's 1e-3 tolerance). *)
+Record cylq := { q_rmin : Q; q_dr : Q; q_dz : Q; q_nphi : Z; q_dphi : Q; q_nr : Z }.
+Definition cyl_cell_code (g : cylq) (phi : Q) (p : vec) : cell :=
+  let '(x, y, z) := p in
+  (ir_of (Z.to_nat (q_nr g) + 2) (x * x + y * y) (q_rmin g) (q_dr g),
+   (if (q_nphi g =? 1)%Z then 0%Z else iphi_of_phi (inject_Z (q_nphi g) * q_dphi g) (q_dphi g) phi),
+   ctrunc (z / q_dz g)).
+
 (* ------------------------------------------------------------------------------------------ *)
 (* voxel maps                                                                                  *)
 (* ------------------------------------------------------------------------------------------ *)
